@@ -22,6 +22,7 @@ inductive Why
   | construction  -- method only called while the owning object is being constructed, before it is shared
   | lockedGlobal  -- package-level registry written only under its mutex
   | initOnly      -- package-level table filled by functions that are only called from `init`
+  | syncRegistry  -- registration API of a package-level registry backed by sync.Map / internal/syncmap (synchronised container)
   deriving DecidableEq, Repr
 
 /-- (package, receiver type or function) that may carry mutation facts, and why -/
@@ -40,6 +41,20 @@ def allowedOwners : List (String × String × Why) := [
   ("internal/aead", "polyval", .perCall),
   ("aead/subtle", "polyval", .perCall),
   ("hybrid/internal/hpke", "context", .perCall),
+  ("core/registry", "RegisterKeyManager", .syncRegistry),
+  ("core/registry", "UnregisterKeyManager", .syncRegistry),
+  ("internal/keygenregistry", "RegisterKeyCreator", .syncRegistry),
+  ("internal/keygenregistry", "UnregisterKeyCreator", .syncRegistry),
+  ("internal/primitiveregistry", "RegisterPrimitiveConstructor", .syncRegistry),
+  ("internal/primitiveregistry", "UnregisterPrimitiveConstructor", .syncRegistry),
+  ("internal/protoserialization", "ClearParametersSerializers", .syncRegistry),
+  ("internal/protoserialization", "RegisterKeyParser", .syncRegistry),
+  ("internal/protoserialization", "RegisterKeySerializer", .syncRegistry),
+  ("internal/protoserialization", "RegisterParametersParser", .syncRegistry),
+  ("internal/protoserialization", "RegisterParametersSerializer", .syncRegistry),
+  ("internal/protoserialization", "UnregisterKeyParser", .syncRegistry),
+  ("internal/protoserialization", "UnregisterKeySerializer", .syncRegistry),
+  ("internal/protoserialization", "UnregisterParametersParser", .syncRegistry),
   ("core/registry", "RegisterKMSClient", .lockedGlobal),
   ("core/registry", "ClearKMSClients", .lockedGlobal),
   ("internal/internalregistry", "RegisterMonitoringClient", .lockedGlobal),
